@@ -256,6 +256,8 @@ def write_workspace(root, tier, shards=16):
     json.dump(meta, open(f"{root}/meta.json", "w"))
     return meta
 
+REPO = os.environ.get("VERIF_REPO", "/repo")
+
 def crate_toml(name):
     return f"""[package]
 name = "{name}"
@@ -263,7 +265,7 @@ version = "0.1.0"
 edition = "2021"
 
 [dependencies]
-tarpc = {{ path = "/repo/tarpc", features = ["full"] }}
+tarpc = {{ path = "{REPO}/tarpc", features = ["full"] }}
 tokio = {{ version = "1", features = ["rt", "macros"] }}
 futures = "0.3"
 """
